@@ -285,6 +285,17 @@ PROPS['C10'].setdefault('nx', {})['mlstring'] = 'interior lines of re-indented m
 _PIPE = 'end-to-end clause executed natively on the real pipeline (make_formatter(config).format) over an exhaustively enumerated small domain: bounded stand-in for the composition through parser and line-wrapping search, which no contract reaches'
 for _pid in ('C01', 'C02', 'C03', 'C04', 'C05', 'C06', 'C07', 'C08', 'C09', 'C10', 'C11', 'C15'):
     PROPS[_pid].setdefault('nx', {})['pipeline'] = _PIPE
+PROPS['C18'] = {
+    'title': 'Batch formatting equals formatting each file alone, under any schedule',
+    'level': 'exploration',
+    'vx': {}, 'kx': {},
+    'nx': {'filefmt': 'files mode on 36 files per invocation: every file gets the result it gets alone, failing files (undecodable, missing) are reported one by one and left untouched, for pool sizes 1, 2, 3, 8, four failure patterns, two repetitions (bounded stand-in; schedules are sampled, not enumerated)'},
+    'not_decided': ['NOT A PROOF and NOT an exploration of schedules: Kani has no threads and Verus would need the code rewritten onto its permission types; the stand-in samples whatever interleavings rayon produces in 32 invocations',
+                    'exit status wiring in main (the error handler only sets a flag - read)', 'the process-wide AtomicPtr cache of CPU detection in the scanner (covered functionally by NX avx2)'],
+    'explanation': 'The property quantifies over schedules, which neither verifier can express for this code. The only claim is a bounded stand-in on FileFormatter::format_files '
+                   '(exec_format: par_iter + map_init with a per-thread input buffer): native batches under several pool sizes compared with the single-file result.',
+    'technique': STANDIN,
+}
 PROPS['C19'] = {
     'title': 'Configuration is resolved by a fixed precedence and rejects unknown settings',
     'level': 'exploration',
@@ -302,7 +313,6 @@ for _p in PROPS.values():
     _p.setdefault('level_text', _p.get('explanation', ''))
 
 NOT_APPLICABLE = {
-    'C18': 'quantifies over schedules of a rayon pool: Kani has no threads, Verus would need the code rewritten onto its permission types (a model) (DESIGN.md 6)',
 }
 
 # Verus function -> Kani harnesses of the same function (run when only a proof hint of the Verus unit fails)
